@@ -54,7 +54,7 @@ type Defpackage struct {
 
 // Call the function with the arguments provided.
 func (f *Defpackage) Call(s *slip.Scope, args slip.List, depth int) (result slip.Object) {
-	slip.CheckArgCount(s, depth, f, args, 1, 7)
+	slip.CheckArgCount(s, depth, f, args, 1, -1)
 	a0 := slip.EvalArg(s, args, 0, depth)
 	name := slip.MustBeString(a0, "name")
 	if slip.FindPackage(name) != nil {
